@@ -3,6 +3,17 @@
 import json, os
 V = os.path.dirname(os.path.dirname(os.path.abspath(__file__)))
 CHECKS = {
+ 'C03': dict(
+    level=('model_checking', 'Bounded monolithic SAT: for each length n one query over ALL token strings in Sigma^n (91 terminals) decides LR-SAT(real ply LALR tables regenerated from the working tree, plus the ProductionError side condition found by executing the actions) against CFG-SAT(ECMA-262 Annex A.3-A.5 reference grammar), both directions, and - where both accept - equality of every labelled node span (node kind from executing the real p_* action + terminal skeleton). '
+                              'A second leg compares the yield language of each of 100 corresponding non-terminals (phrases <= 6/7 tokens), embedding and replaying every witness, which reaches deviations whose smallest program is longer than the sentence bound. quick: acceptance n<=7, tree n<=6; thorough: 9 / 8.', 'DESIGN.md C03'),
+    note='Trusted: ply LRParser drives the tables as LR theory says (validated each run on all accepted strings up to length 3/4 and on every witness through the real engine); z3 as SAT solver (sat models always replayed); ref/es5_syntactic.gram as the reading of the standard. Outside: longer sentences, the lexical grammar and lexer feedback (C05/C06), early errors. Labels not compared: Identifier/PropIdentifier/VarDecl (factoring differs between the grammars).',
+    technique='bounded SAT encoding of the real LALR tables (LR-SAT) vs a reference CFG (CFG-SAT), all token strings up to length n per query; witnesses replayed on the real ply engine',
+    engine='GX'),
+ 'C17': dict(
+    level=('model_checking', 'Four parser configurations are built by the real code in separate interpreters on scratch copies (generated modules, in-memory un-optimised, helper first-build, helper re-optimise); their LALR tables are compared pairwise by LR-SAT in-equivalence queries over all token strings up to length 5/7 (identical tables give a syntactically unsatisfiable formula, differing ones a SAT search for a distinguishing input); master lexer patterns and rule bindings compared alternative by alternative; SX proves for every spelling that each lexer rule function returns a declared token type (the check ply skips in optimised mode, so a violation is exactly an input on which the modes diverge).', 'DESIGN.md C17'),
+    note='Trusted: ply semantics; textual identity of master regexes implies equal lexing. Outside: longer inputs; language-equivalence of textually different master patterns is reported as inconclusive, not decided.',
+    technique='bounded SAT in-equivalence of LALR table sets (LR-SAT) + symbolic execution (z3 strings) of the lexer rule functions',
+    engine='GX+SX'),
  'C09': dict(
     level=('other', 'Bounded/inductive symbolic execution of the real sourcemap.write, normalize_mapping_line(s), Names, Bookkeeper, encode_sourcemap (SX, z3 Ints for every position, length and index): '
                     'W = one step from an arbitrary valid writer state for each of 504 fragment shapes (induction over stream length), N = normalisation of symbolic lines of <= 4/5 segments with arbitrary carry (induction over lines), '
